@@ -614,10 +614,20 @@ func rawXML(r *Run, innerToo bool) {
 			if !inner {
 				return
 			}
-			n++
 			// acceptable: constants, or output of the library's own OMML generator (marshalled / built from escaped parts)
 			ok2 := false
 			detail := ""
+			// a verbatim copy of the same field of another object (clone functions): the obligation
+			// lies with whoever filled the original
+			if sf, _ := fieldOfVal(stripConv(st.Val)); sf == fv {
+				return
+			}
+			if ld, isLoad := stripConv(st.Val).(*ssa.UnOp); isLoad && ld.Op == token.MUL {
+				if sf, _ := fieldOfAddr(ld.X); sf == fv {
+					return
+				}
+			}
+			n++
 			switch v := stripConv(st.Val).(type) {
 			case *ssa.Const:
 				ok2 = true
